@@ -166,6 +166,8 @@ type Proto = Protocol<'static, ScriptLink>;
 
 thread_local! {
     static DEPTH: Cell<u32> = Cell::new(0);
+    /// Some(levels sent so far) while a chain of nested own-address sends is in progress
+    static CHAIN: RefCell<Option<Vec<u8>>> = RefCell::new(None);
 }
 
 #[derive(Clone, Debug)]
@@ -176,6 +178,10 @@ enum Beh {
     /// performs a single-reply exchange for acknowledgements (capture_all = false) through
     /// the handle it is given and records what it got
     Exchanger,
+    /// when it is handed a chain packet `[0x7a, n, ..]` with n > 0 addressed to the node's own
+    /// address (given here), it sends `[0x7a, n - 1, ..]` to the own address through the handle
+    /// it is given: sends nested n levels deep, each of which must reach every local handler
+    SelfSender(u16),
 }
 
 #[derive(Clone, Debug)]
@@ -291,6 +297,22 @@ fn make_handler(sim: &Sim, name: &'static str, h: &MHandler, hlog: &Rc<RefCell<H
                 sim.count("handler_sent_from_delivery");
                 let _ = proto.send_packet(out);
                 DEPTH.with(|d| d.set(depth));
+            }
+        }
+        if let Beh::SelfSender(own) = &beh {
+            // (armed only while a chain send is being judged: an echo of a chain packet that
+            // arrives through a tick later is an ordinary packet)
+            let armed = CHAIN.with(|c| c.borrow().is_some());
+            if armed && p.device_address == *own && p.data.len() >= 2 && p.data[0] == 0x7a && p.data[1] > 0 {
+                let mut q = p.clone();
+                q.data[1] -= 1;
+                sim.count("handler_sent_to_own_address_from_delivery");
+                CHAIN.with(|c| {
+                    if let Some(v) = c.borrow_mut().as_mut() {
+                        v.push(q.data[1]);
+                    }
+                });
+                let _ = proto.send_packet(&q);
             }
         }
         if let Beh::Exchanger = &beh {
@@ -740,8 +762,12 @@ pub fn run(sim: &Sim, prop: &str, tier: Tier) -> Outcome {
                         model.next_token - 1
                     }
                 };
+                let self_sender_live = model.live.values().any(|h| matches!(h.beh, Beh::SelfSender(_)));
                 let beh = if zst.is_some() {
                     Beh::Plain
+                } else if !self_sender_live && sim.chance(6) {
+                    // (at most one per table: two would multiply the chain at every level)
+                    Beh::SelfSender(own)
                 } else if sim.chance(25) {
                     let dest = other_addr(sim, own);
                     let dest = if dest == own { dest ^ 1 } else { dest };
@@ -1295,6 +1321,10 @@ fn op_tick(sim: &Sim, prop: &str, node: &mut Node, model: &Model, forced: Option
 /// A send against a drawn link outcome, judged by C16's clauses.
 fn op_send(sim: &Sim, prop: &str, node: &mut Node, model: &Model, forced: Option<(Packet, Option<u32>)>) -> Option<Outcome> {
     let own = model.own;
+    // a chain of nested own-address sends (see Beh::SelfSender)
+    if forced.is_none() && model.live.values().any(|h| matches!(h.beh, Beh::SelfSender(_))) && sim.chance(35) {
+        return op_send_chain(sim, prop, node, model);
+    }
     let (p, outcome) = forced.unwrap_or_else(|| {
         let addr = match sim.draw(4) {
             0 => own,
@@ -1309,7 +1339,7 @@ fn op_send(sim: &Sim, prop: &str, node: &mut Node, model: &Model, forced: Option
     // from a loop-back delivery run first and get Ok
     let loops = p.device_address == own;
     let transmits = !loops || own == BROADCAST_ADDRESS;
-    let has_senders = model.live.values().any(|h| matches!(h.beh, Beh::Sender(_)));
+    let has_senders = model.live.values().any(|h| matches!(h.beh, Beh::Sender(_) | Beh::SelfSender(_)));
     if loops && has_senders {
         // cannot force "the next send" when handlers send first: use a clean link
         node.link.borrow_mut().next_send_err = None;
@@ -1425,6 +1455,123 @@ fn op_send(sim: &Sim, prop: &str, node: &mut Node, model: &Model, forced: Option
     } else {
         sim.probe("transmitted_to_other");
     }
+    None
+}
+
+/// A send to the own address that a handler continues n levels deep: every level is a send
+/// of its own and must reach the local handlers (and the link iff the own address is the
+/// broadcast address). Judged by C16's clauses, at the return of the outermost send. The
+/// handler that continues the chain is *running* while the nested sends are made: whether a
+/// nested delivery re-enters a running handler, skips it or defers it is left open (re-entering
+/// a running `FnMut` is not something an implementation can be required to do); every other
+/// handler must see every level that was sent exactly once.
+fn op_send_chain(sim: &Sim, prop: &str, node: &mut Node, model: &Model) -> Option<Outcome> {
+    let own = model.own;
+    let ttl = sim.pick(&[3u8, 1, 8, 9, 12, 20, 40]);
+    let tag = sim.draw(250) as u8;
+    let level = |n: u8| Packet {
+        is_error: false,
+        device_address: own,
+        data: vec![0x7a, n, tag, 0x11],
+    };
+    node.link.borrow_mut().next_send_err = None;
+    node.link.borrow_mut().send_err_pct = 0;
+    let p = level(ttl);
+    CHAIN.with(|c| *c.borrow_mut() = Some(vec![ttl]));
+    let r = sut(|| node.proto.send_packet(&p));
+    let levels_sent: Vec<u8> = CHAIN.with(|c| c.borrow_mut().take()).unwrap_or_default();
+    let d = take_logs(node);
+    sim.event(EV_OP, 13, d.fired.len() as u64, || {
+        format!(
+            "send_packet({}) [continued by a handler: levels sent {:?}] -> {}; {} handler calls",
+            show_packet(&p),
+            levels_sent,
+            show_perr(&r),
+            d.fired.len()
+        )
+    });
+    for (t, _, _) in &d.fired {
+        if model.dead.contains(t) {
+            return Some(fail(prop, "C17.remove", format!("handler #{} was removed but was invoked by a loop-back send", t), "removed-handler-invoked".to_string()));
+        }
+    }
+    if prop != "C16" {
+        return None;
+    }
+    if let Err(c) = &r {
+        return Some(fail(prop, "C16.tx", format!("send_packet crashed: {:?}", c), crash_sig("send", c)));
+    }
+    let exp = expected_tokens(model, true);
+    let runner: Option<u32> = model.live.values().find(|h| matches!(h.beh, Beh::SelfSender(_))).map(|h| h.token);
+    for (i, n) in levels_sent.iter().enumerate() {
+        let pl = level(*n);
+        let mut seen: BTreeMap<u32, u32> = BTreeMap::new();
+        for (t, q, _) in &d.fired {
+            if packet_eq(q, &pl) {
+                *seen.entry(*t).or_insert(0) += 1;
+            }
+        }
+        // the outermost send (i == 0) is an ordinary send: every handler once; at nested levels
+        // the running handler may be re-entered, skipped or deferred (0 or 1 calls)
+        let ok = exp.iter().all(|t| {
+            let k = seen.get(t).copied().unwrap_or(0);
+            if i > 0 && Some(*t) == runner {
+                k <= 1
+            } else {
+                k == 1
+            }
+        }) && seen.keys().all(|t| exp.contains(t));
+        if !ok {
+            return Some(fail(
+                prop,
+                "C16.loop",
+                format!(
+                    "a send to the own address {:04x} made by handler #{:?} {} level(s) deep inside the delivery of an earlier own-address send: the packet {} must reach each of the other {} local handler(s) exactly once; handler calls per handler: {:?}",
+                    own,
+                    runner,
+                    i,
+                    show_packet(&pl),
+                    exp.len().saturating_sub(1),
+                    seen
+                ),
+                "nested-own-address-send".to_string(),
+            ));
+        }
+    }
+    if d.fired.iter().any(|(_, q, _)| !(q.data.len() == 4 && q.data[0] == 0x7a && q.data[2] == tag && levels_sent.contains(&q.data[1]))) {
+        return Some(fail(prop, "C16.loop", "a handler observed a packet that is no level of the chain".to_string(), "nested-own-address-send".to_string()));
+    }
+    // the link: every level that was sent iff the own address is the broadcast address, plus
+    // what the transmitting handlers sent at every level
+    let mut want: Vec<Packet> = Vec::new();
+    for n in &levels_sent {
+        want.extend(expected_reent(model, &exp));
+        if own == BROADCAST_ADDRESS {
+            want.push(level(*n));
+        }
+    }
+    let got: Vec<Packet> = d.sent.iter().map(|(p, _, _)| p.clone()).collect();
+    if !multiset_eq(&want, &got) {
+        return Some(fail(
+            prop,
+            "C16.loop",
+            format!(
+                "a chain of {} nested own-address sends (own address {:04x}): expected {} packets on the link, found {}",
+                levels_sent.len(),
+                own,
+                want.len(),
+                got.len()
+            ),
+            if got.len() > want.len() { "transmitted-too-much" } else { "not-transmitted" }.to_string(),
+        ));
+    }
+    if !matches!(r, Ok(Ok(()))) {
+        return Some(fail(prop, "C16.ok", format!("send_packet({}) returned {} although nothing failed", show_packet(&p), show_perr(&r)), "spurious-send-error".to_string()));
+    }
+    if levels_sent.len() >= 9 && exp.len() >= 2 {
+        sim.probe("nested_own_address_sends_over_8_deep");
+    }
+    sim.probe("nested_own_address_sends");
     None
 }
 
